@@ -17,16 +17,20 @@ from . import evidence, findings, pengine, slices
 
 VERIF = os.path.dirname(os.path.dirname(os.path.abspath(__file__)))
 
+ALL_WHY = ["unknownCommand", "extNotLoaded", "nonTestAsTest", "testAsCommand", "valueAfterTest", "surplusList", "surplusArg",
+           "illTyped", "missingTest", "missingBlock", "blockAfterAction", "missingSemicolon", "unterminated", "bracket",
+           "badParam", "tagNotTaken", "tagMisplaced", "surplusTest", "emptyList", "malformedList", "mustFollow",
+           "commandExpected"]
 SUFFIXES = [" ;", " }", " stop;", " { }", "\nkeep;\n", " ]", " )", ' "x"', " :is", " , true"]
 
 CONF = {
     # prop: (layouts, nlay, nsuf)
-    "C01": (["space", "upper", "crlf", "compact", "mixed", "pretty"], 2, 2),
+    "C01": (["space", "upper", "crlf", "compact", "mixed", "pretty"], 2, 1),
     "C02": (["compact", "crlf", "lines", "mlcomment", "space"], 2, 1),
     "C03": (["space", "pretty", "crlf", "mixed"], 2, 0),
     "C04": (["space", "crlf", "mixed", "mlcomment"], 2, 0),
     "C07": (["space", "upper", "mixed", "lines"], 2, 1),
-    "C18": (["lines", "crlf", "mlcomment", "space", "compact"], 3, 3),
+    "C18": (["lines", "crlf", "mlcomment", "space", "compact"], 3, 2),
 }
 
 
@@ -64,6 +68,7 @@ def run(prop, tier, seed, extra_drivers=()):
             results.append(r)
 
     states = trans = parses = lines = 0
+    whys, devuse = {}, {}
     per_slice = {}
     known = {}
     viols = []
@@ -81,6 +86,11 @@ def run(prop, tier, seed, extra_drivers=()):
         lines += total.get("lines", 0)
         for k in cls_counts:
             cls_counts[k] += total.get(k, 0)
+        for k, v in total.items():
+            if k.startswith("why:"):
+                whys[k[4:]] = whys.get(k[4:], 0) + v
+            if k.startswith("dev:"):
+                devuse[k[4:]] = devuse.get(k[4:], 0) + v
         per_slice[name] = {"maxlen": ml, "distinct_states": res["distinct"], "states_generated": res["states"],
                            "depth": res["depth"], "tlc_wall_s": round(res["wall"], 1),
                            "parses": total.get("parses", 0)}
@@ -146,6 +156,9 @@ def run(prop, tier, seed, extra_drivers=()):
                    "plus the first non-viable token (TLC, exhaustive); rendered under layouts and suffixes",
            "evaluations": parses, "distinct_nontrivial": lines,
            "sequences": lines, "reference_verdicts": cls_counts, "slices": per_slice,
+           "reject_classes_reached": whys,
+           "reject_classes_never_reached": sorted(set(ALL_WHY) - set(whys)),
+           "deviation_paths_enumerated": devuse,
            "layouts": layouts[:nlay] if nlay != 2 else [layouts[0], "one of " + ",".join(layouts[1:])],
            "enabled_deviations": devs, "known_finding_cases": {d: len(rs) for d, rs in known.items()},
            "violating_cases": len(viols), "extra": extra_cov,
